@@ -1,3 +1,4 @@
+\* the extrema detector: the last Exempt entries may be revised
 SPECIFICATION Spec
 CONSTANTS Vals = {1, 2} MaxFed = 5 Exempt = 2 Quirk = "none"
 INVARIANT TypeOK
